@@ -62,6 +62,10 @@ var corpus = []variant{
 	{"C05-open-without-append", "C05", "C05.overwrite-provenance", []edit{{"pkg/tape/write.go", "	if isRegular {\n		f, err = os.OpenFile(", "os.O_APPEND|os.O_WRONLY|os.O_CREATE", "os.O_WRONLY|os.O_CREATE"}}},
 	{"C05-dirty-not-set", "C05", "C05.trailer", []edit{{"pkg/operations/delete.go", "		if err := tw.WriteHeader(hdr); err != nil {\n", "		dirty = true\n", ""}}},
 	{"C05-lookup-after-write", "C05", "C05.lookups-before-append", []edit{{"pkg/operations/move.go", "", "		dirty = true\n	}\n", "		dirty = true\n\n		if _, err := o.metadata.Metadata.GetHeader(context.Background(), hdr.Name); err == nil {\n			return config.ErrNotImplemented\n		}\n	}\n"}}},
+	// C06
+	{"C06-skip-before-index", "C06", "C06.header-before-content", []edit{{"pkg/recovery/index.go", "", "			if i >= offset {\n				if err := decryptHeader(hdr, i-offset); err != nil {", "			if _, err := io.Copy(ioutil.Discard, tr); err != nil {\n				return err\n			}\n\n			if i >= offset {\n				if err := decryptHeader(hdr, i-offset); err != nil {"}}},
+	{"C06-parse-error-escapes", "C06", "C06.resync-exits", []edit{{"pkg/recovery/index.go", "					hdr, err = tr.Next()\n					if err != nil {\n						if err == io.EOF {\n							// EOF\n							break\n						}\n\n", "						continue\n", "						return err\n"}}},
+	{"C06-skip-error-swallowed", "C06", "C06.content-error-surfaces", []edit{{"pkg/recovery/index.go", "", "			if _, err := io.Copy(ioutil.Discard, tr); err != nil {\n				return err\n			}\n\n			currAndSize, err := reader.Drive.Seek(0, io.SeekCurrent)", "			_, _ = io.Copy(ioutil.Discard, tr)\n\n			currAndSize, err := reader.Drive.Seek(0, io.SeekCurrent)"}}},
 	// C07
 	{"C07-unguarded-insert", "C07", "C07.guarded-insert", []edit{{"pkg/persisters/metadata.go", "func (p *MetadataPersister) UpsertHeader(", "		if err == sql.ErrNoRows {\n", "		if err != nil {\n"}}},
 	// C08
